@@ -593,21 +593,26 @@ async fn stream_events(
     });
 
     let last_seq_live = last_seq;
-    let live_stream = BroadcastStream::new(receiver).filter_map(move |result| {
-        let last_seq = last_seq_live;
-        async move {
-            match result {
-                Ok(event) => {
-                    if last_seq.map(|last| event.seq <= last).unwrap_or(false) {
-                        return None;
+    // A subscriber that falls further behind than the channel holds has lost frames for good;
+    // end its stream there (it can re-attach and is then served from history) instead of
+    // silently continuing after the gap.
+    let live_stream = BroadcastStream::new(receiver)
+        .take_while(|result| futures_util::future::ready(result.is_ok()))
+        .filter_map(move |result| {
+            let last_seq = last_seq_live;
+            async move {
+                match result {
+                    Ok(event) => {
+                        if last_seq.map(|last| event.seq <= last).unwrap_or(false) {
+                            return None;
+                        }
+                        let json = serde_json::to_string(&event).ok()?;
+                        Some(Ok::<SseEvent, Infallible>(SseEvent::default().data(json)))
                     }
-                    let json = serde_json::to_string(&event).ok()?;
-                    Some(Ok::<SseEvent, Infallible>(SseEvent::default().data(json)))
+                    Err(_) => None,
                 }
-                Err(_) => None,
             }
-        }
-    });
+        });
 
     let stream = past_stream.chain(live_stream);
 
@@ -1328,25 +1333,30 @@ async fn thread_stream_events(
 
     let thread_id_live = thread_id.clone();
     let last_seq_live = last_seq;
-    let live_stream = BroadcastStream::new(receiver).filter_map(move |result| {
-        let last_seq = last_seq_live;
-        let thread_id = thread_id_live.clone();
-        async move {
-            match result {
-                Ok(event) => {
-                    if event.session_id != thread_id {
-                        return None;
+    // A subscriber that falls further behind than the channel holds has lost frames for good;
+    // end its stream there (it can re-attach and is then served from history) instead of
+    // silently continuing after the gap.
+    let live_stream = BroadcastStream::new(receiver)
+        .take_while(|result| futures_util::future::ready(result.is_ok()))
+        .filter_map(move |result| {
+            let last_seq = last_seq_live;
+            let thread_id = thread_id_live.clone();
+            async move {
+                match result {
+                    Ok(event) => {
+                        if event.session_id != thread_id {
+                            return None;
+                        }
+                        if last_seq.map(|last| event.seq <= last).unwrap_or(false) {
+                            return None;
+                        }
+                        let json = serde_json::to_string(&event).ok()?;
+                        Some(Ok::<SseEvent, Infallible>(SseEvent::default().data(json)))
                     }
-                    if last_seq.map(|last| event.seq <= last).unwrap_or(false) {
-                        return None;
-                    }
-                    let json = serde_json::to_string(&event).ok()?;
-                    Some(Ok::<SseEvent, Infallible>(SseEvent::default().data(json)))
+                    Err(_) => None,
                 }
-                Err(_) => None,
             }
-        }
-    });
+        });
 
     let stream = past_stream.chain(live_stream);
     Sse::new(stream)
@@ -1508,21 +1518,26 @@ async fn stream_task_events(
     });
 
     let last_seq_live = last_seq;
-    let live_stream = BroadcastStream::new(receiver).filter_map(move |result| {
-        let last_seq = last_seq_live;
-        async move {
-            match result {
-                Ok(event) => {
-                    if last_seq.map(|last| event.seq <= last).unwrap_or(false) {
-                        return None;
+    // A subscriber that falls further behind than the channel holds has lost frames for good;
+    // end its stream there (it can re-attach and is then served from history) instead of
+    // silently continuing after the gap.
+    let live_stream = BroadcastStream::new(receiver)
+        .take_while(|result| futures_util::future::ready(result.is_ok()))
+        .filter_map(move |result| {
+            let last_seq = last_seq_live;
+            async move {
+                match result {
+                    Ok(event) => {
+                        if last_seq.map(|last| event.seq <= last).unwrap_or(false) {
+                            return None;
+                        }
+                        let json = serde_json::to_string(&event).ok()?;
+                        Some(Ok::<SseEvent, Infallible>(SseEvent::default().data(json)))
                     }
-                    let json = serde_json::to_string(&event).ok()?;
-                    Some(Ok::<SseEvent, Infallible>(SseEvent::default().data(json)))
+                    Err(_) => None,
                 }
-                Err(_) => None,
             }
-        }
-    });
+        });
 
     let stream = past_stream.chain(live_stream);
     Sse::new(stream)
